@@ -10,7 +10,9 @@ LEVEL = "exploration"
 RULE = ("Hypothesis-generated (objective incl. constant/step/quantised families, N=1..5, box, r, eps, "
         "itersLimit<=300, density 6/10/12, SolverParameters.startPoint set in a fifth of the cases; one case in "
         "eight is pushed to the float resolution of the curve coordinate: eps 1e-17..1e-300 on a kinked 1-D or "
-        "coarse 2-D objective) driven by DoGlobalIteration(k) batches and/or Solve; after EVERY call "
+        "coarse 2-D objective) driven by DoGlobalIteration(k) batches and/or Solve; between the calls "
+        "a second solver on another problem may be created and stepped, and an observer may ask the solver's evolvent for "
+        "the preimages of stored points; objectives may carry a level of +-1e2..1e7; after EVERY call "
         "the search information is traversed and compared with the Problem.Calculate log, a fresh Evolvent and "
         "the items delivered to the listener. Non-trivial: >=8 trials and at least one trial inserted between "
         "two evaluated trials (both neighbours relinked). Distinct = distinct case digest.")
